@@ -337,7 +337,10 @@ def run_optim(chk, ctx, spec, sample=True):
         if w != 'optimize_grid' and not in_box(xret.tolist(), lower, upper):
             bad('result_in_bounds', 'returned %r outside lower %r / upper %r' % (xret.tolist(), lower, upper))
         llr = pb.ll(xret, multinom)
-        if not math.isfinite(llr):
+        if fret is not None and not math.isfinite(fret):
+            bad('reported_not_finite', 'reported optimum %r for the returned parameters %r (their %s is %r)'
+                % (fret, xret.tolist(), 'll' if w == 'opt' else '-ll/ll_scale', llr if w == 'opt' else -llr / scale))
+        elif not math.isfinite(llr):
             chk.stat('degenerate_toy_likelihood_skipped')      # cannot happen with the clipped toys; kept as a guard
         elif fret is not None:
             expect = llr if w == 'opt' else -llr / scale
@@ -488,7 +491,7 @@ def k_trace(chk, ctx, spec, pb, rec, calls, xret, fret, verdict, scale):
     # the clauses re-derived by checkTrace must be the ones the direct oracle found
     mf = set() if m_failed == '-' else set(m_failed.split(','))
     if fret is None: mf.discard('ll_result_is_reported')
-    lf = set(verdict) - {'grid_best'}
+    lf = set(verdict) - {'grid_best', 'reported_not_finite'}
     if mf == lf: chk.k_ok('clauses:' + tn)
     else: chk.k_bad('clauses:' + tn, spec, sorted(lf), sorted(mf), None)
 
@@ -898,6 +901,13 @@ def run(chk, ctx):
                 specs.append(gen_spec(rng, w, tier, log_opt=lo, bounds='full', k=2, pfixed=0.0, algorithm='LN_BOBYQA'))
                 specs.append(gen_spec(rng, w, tier, log_opt=lo, bounds='none', k=2, pfixed=0.0, algorithm='LN_BOBYQA'))
                 specs.append(gen_spec(rng, w, tier, log_opt=lo, bounds='partial', k=3, pfixed=1.0, algorithm='LN_BOBYQA'))
+                # the documented defaults: no bounds, default algorithm and default maxeval; and one more local algorithm
+                specs.append(gen_spec(rng, w, tier, log_opt=lo, bounds='none', k=2, pfixed=0.0, algorithm='LN_BOBYQA', maxiter=None))
+                specs.append(gen_spec(rng, w, tier, log_opt=lo, bounds='none', k=2, pfixed=0.0, algorithm='LN_COBYLA'))
+                specs.append(gen_spec(rng, w, tier, log_opt=lo, bounds='upper', k=2, pfixed=0.0, algorithm='LN_NELDERMEAD'))
+                for j in range(6):      # the default algorithm without a (complete) lower bound
+                    specs.append(gen_spec(rng, w, tier, log_opt=lo, bounds=['none', 'upper', 'partial'][j % 3], algorithm='LN_BOBYQA',
+                                          maxiter=(None if j % 2 else 60)))
         else:
             specs.append(gen_spec(rng, w, tier, bounds='full', k=2, pfixed=0.0, full_output=True, maxiter=None))
             specs.append(gen_spec(rng, w, tier, bounds='partial', k=3, pfixed=1.0, full_output=True))
@@ -906,7 +916,7 @@ def run(chk, ctx):
         specs.append(gen_grid_spec(rng, tier, nfree=1, full_output=False))
         specs.append(gen_grid_spec(rng, tier, nfree=2, full_output=True))
     # ---- random cases
-    nrand = 4 if quick else 60
+    nrand = 10 if quick else 120
     for w in names:
         if w.endswith('_resid'): continue
         for _ in range(nrand * (2 if w == 'opt' else 1)):
